@@ -45,6 +45,18 @@ func (db *DB) VerifHasReadLock() bool {
 	return db.rtx != nil
 }
 
+// VerifLocksFree reports whether the executor semaphore and the checkpoint lock are free.
+// Only meaningful while no operation is in flight (it briefly takes and releases them).
+func (db *DB) VerifLocksFree() (execFree, chkFree bool) {
+	if execFree = db.execSem.TryAcquire(1); execFree {
+		db.execSem.Release(1)
+	}
+	if chkFree = db.chkMu.TryLock(); chkFree {
+		db.chkMu.Unlock()
+	}
+	return execFree, chkFree
+}
+
 // VerifPageMap exposes the chunked page map of a WAL reader.
 func (r *WALReader) VerifPageMap(ctx context.Context, maxBytes int64) (m map[uint32]int64, maxOffset int64, commit uint32, limited bool, err error) {
 	return r.pageMap(ctx, maxBytes)
